@@ -1168,7 +1168,8 @@ def partial(pid):
 def assumptions(pid):
     return ["std components (Vec, slice, ptr, serde_json) behave as specified in DESIGN.md §8",
             "two build profiles (debug; release with overflow-checks=off), 64-bit usize",
-            "the harness and the driver parse/print the protocol faithfully"]
+            "the harness and the driver parse/print the protocol faithfully",
+            "allocation failure below the capacity-overflow limit (a process abort) is outside the model; the limits themselves (Vec<T>, sort side table) are model parameters"]
 
 
 def abort_is_violation(pid, line):
